@@ -18,7 +18,7 @@ def run_case(case):
     dp = W.tagged_params(nl - 1)
     dp.update(T1=np.ones(nl), T2=np.ones(nl), dt=[1e-9])
     psi0 = np.array([complex(a, b) for a, b in case["psi0"]])
-    sim = S.MrAndersonSimulator(gates=NoiseFreeGates(), CircuitClass=W.circuit_class(case["cls"]), parallel=True)
+    sim = S.MrAndersonSimulator(gates=NoiseFreeGates(), CircuitClass=W.circuit_class(case["cls"]), parallel=not case.get("sequential"))
     try:
         with contextlib.redirect_stdout(io.StringIO()), mock.patch.object(multiprocessing, "cpu_count", return_value=case.get("cpu", 3)):
             res = sim.run(t_qiskit_circ=qc, qubits_layout=list(range(nl)), psi0=psi0, shots=case.get("shots", 3), device_param=dp, nqubit=n)
